@@ -70,4 +70,24 @@ theorem bbox2str_num (x0 y0 x1 y1 : SRat) : NumStr (Gen.ConvertFmt.bbox2str x0 y
   have hc : NumStr [','] := by intro c hc; simp at hc; subst hc; decide
   repeat (first | exact fmtF3_num _ | exact hc | apply NumStr.append)
 
+theorem strJoin_num (sep : Str) (hs : NumStr sep) (parts : List Str) (hp : ∀ x ∈ parts, NumStr x) :
+    NumStr (strJoin sep parts) := by
+  induction parts with
+  | nil => intro c hc; simp [strJoin] at hc
+  | cons x r ih =>
+    cases r with
+    | nil => simpa [strJoin] using hp x (by simp)
+    | cons y r' =>
+      simp only [strJoin]
+      exact NumStr.append (NumStr.append (hp x (by simp)) hs) (ih (fun z hz => hp z (by simp [hz])))
+
+theorem get_pts_num (pts : List (SRat × SRat)) : NumStr (Gen.ConvertFmt.get_pts pts) := by
+  unfold Gen.ConvertFmt.get_pts
+  have hc : NumStr [','] := by intro c hc; simp at hc; subst hc; decide
+  refine strJoin_num _ hc _ ?_
+  intro x hx
+  obtain ⟨p, _, rfl⟩ := List.mem_map.mp hx
+  unfold Gen.ConvertFmt.ptStr
+  repeat (first | exact fmtF3_num _ | exact hc | apply NumStr.append)
+
 end PdfVerif.Xml
